@@ -42,6 +42,23 @@ def addassign_off(ty, n, off, cfg):
     ens = [(c, k, E.inp(c, k)) for k in range(off)] + [(c, off + k, E.inp(c, off + k) + E.inp(a, off + k)) for k in range(n)]
     return Case('C07/offmap-addassign/%s/%d/off%d/%s' % (ty.name, n, off, cfg.tag()), 'C07', body, [a, c], ens, 'SYM', cfg)
 
+def scalarop_off(ty, n, off, op, cfg):
+    """in-place scalar operator on an offset (misaligned) map: C op= 3 -- float arithmetic uninterpreted (pipeline P0)"""
+    c = Buf('c', ty, n + off, 'inout')
+    body = '    %s\n    C %s= (%s)3;' % (off_map(ty, (n,), 'c', off, const=False), op, ty.cpp)
+    three = E.const(3.0 if ty.kind == 'float' else 3, ty)
+    ens = [(c, k, E.inp(c, k)) for k in range(off)]
+    for k in range(n):
+        x = E.inp(c, off + k)
+        if op == '/':
+            # the library documents a reciprocal multiply for division by a scalar: either form is accepted
+            third = E.const(struct.unpack('<f', struct.pack('<f', 1.0 / 3.0))[0] if ty.bits == 32 else 1.0 / 3.0, ty)   # the correctly rounded 1/3 (constant-folded by the compiler)
+            ens.append(('bool', 'c[%d] == old / 3 (or old * (1/3))' % (off + k), E.post(c, off + k).same(x / three).bor(E.post(c, off + k).same(x * (E.const(1.0, ty) / three))).bor(E.post(c, off + k).same(x * third))))
+        else:
+            ens.append((c, off + k, {'+': x + three, '-': x - three, '*': x * three}[op]))
+    cs = Case('C07/offmap-scalar%s/%s/%d/off%d/%s' % ({'+': 'add', '-': 'sub', '*': 'mul', '/': 'div'}[op], ty.name, n, off, cfg.tag()), 'C07', body, [c], ens, 'UF' if ty.kind == 'float' else 'SYM', cfg)
+    return cs
+
 def sum_off(ty, n, off, cfg):
     a = Buf('a', ty, n + off, 'in', atoms='LIN'); c = Buf('c', ty, 1, 'out')
     body = '    %s\n    c[0] = sum(A);' % off_map(ty, (n,), 'a', off)
@@ -128,12 +145,15 @@ def cases(tier, seed):
                     if ty is INT:
                         out.append(add_off(ty, n, off, cfg)); out.append(addassign_off(ty, n, off, cfg))
                     out.append(sum_off(ty, n, off, cfg))
+                    if ty is not INT:
+                        for op in '+-*/':
+                            if n >= V or op == '/': out.append(scalarop_off(ty, n, off, op, Cfg(isa, pipe='P0')))
                 for (M, K, N) in ([(3, 2, V + 1), (2, 3, V)] if not thorough else [(3, 2, V + 1), (2, 3, V), (4, 4, 2 * V + 1), (1, 5, V - 1 or 1), (V, V, V)]):
                     if N <= 17 and M <= 9: out.append(matmul_off(ty, M, K, N, off, cfg))
         # runtime checks
         cfgc = Cfg(isa, checks=True)
         for ty in (INT, FLT):
-            for shape in ([(5,), (3, 4)] if not thorough else [(5,), (3, 4), (2, 3, 4), (9,)]):
+            for shape in ([(5,), (3, 4), (2, 2, 4, 3)] if not thorough else [(5,), (3, 4), (2, 3, 4), (9,), (2, 2, 4, 3), (3, 2, 2, 4)]):
                 out.append(checked_index(ty, shape, cfgc))
                 out.append(checked_index(ty, shape, cfgc, write=True))
                 out.append(checked_index(ty, shape, cfgc, use_map=True))
